@@ -14,9 +14,18 @@
    other model lines:
      gen <tcp|ipc|sfd> <peer-proto> [<payload-hex>...]      -> hex of handshake ++ frames
      udp <known 0|1> <rcvmax-option> <datagram-hex>         -> decision
-   judge: udp <known> <rcvmax-option> <datagram-hex> => <none | D <payload-hex>> -/
+   judge: udp <known> <rcvmax-option> <datagram-hex> => <none | D <payload-hex>>
+   SP/UDP session (C11B):
+     udps <rcvmax-option> <proto> <raw> <ttl> <subprefix-hex> <busy> <others> <src>:<datagram-hex>...
+       -> n=<k> then per datagram  <act>/<replies c|d<reason>,..|->/<adds>/<reaps>/<-|hdr-hex:body-hex>
+   ws:// session (C11B):
+     wss <rcvmax> <proto> <raw> <ttl> <subprefix-hex> <busy> <host-hex> <subprotocol-hex> <chunk-hex>...
+       -> st=<status,..|-> up=<0|1> sclose=<0|1> wsclosed=<0|1> tx=<frame-hex,..|-> tp=<k> pclose=<0|1> n=<k> [D <hdr> <body>]...
+     judge: <wss line> => 0 [D <hdr> <body>]...  (specification only: RFC 6455 reference decoder of Spec/Ws.lean) -/
 import NngModel.Driver.Common
 import NngModel.Model.Hostile
+import NngModel.Model.HostileNet
+import NngModel.Spec.Ws
 import NngModel.Spec.Hostile
 import NngModel.Spec.Backtrace
 import NngModel.Generated.Base
@@ -80,6 +89,66 @@ def showUdp : UdpAct → String
   | .disc r => s!"disc {r}"
   | .discProto => "disc-proto"
 
+def showAct : UdpAct → String
+  | .ignore => "ignore"
+  | .noMatch => "nomatch"
+  | .data _ => "data"
+  | .discMsgsize => "disc-msgsize"
+  | .creq .. => "creq"
+  | .cack .. => "cack"
+  | .disc .. => "disc"
+  | .discProto => "disc-proto"
+
+def showRep : URep → String
+  | .cack => "c"
+  | .disc r => s!"d{r}"
+
+def showUOut (o : UOut) : String :=
+  let reps := if o.replies.isEmpty then "-" else ",".intercalate (o.replies.map showRep)
+  let dl := match o.deliver with
+    | none => "-"
+    | some (h, b) => s!"{toHex h}:{toHex b}"
+  s!"{showAct o.act}/{reps}/{o.adds}/{o.reaps}/{dl}"
+
+def parseDg (t : String) : Option (Nat × Bytes) :=
+  match t.splitOn ":" with
+  | [a, b] => do pure (← a.toNat?, ← parseHex b)
+  | _ => none
+
+def parsePc (p raw ttl sp busy : String) : Option PCfg := do
+  pure { proto := ← parseProto p, raw := raw == "1", ttl := ← ttl.toNat?, subPrefix := ← parseHex sp, busy := busy == "1" }
+
+def modelUdps : List String → Option String
+  | rm :: p :: raw :: ttl :: sp :: busy :: others :: dgs => do
+    let pc ← parsePc p raw ttl sp busy
+    let ds ← dgs.mapM parseDg
+    let ep : UEp := { rcvmax := udpSetRecvMax (← rm.toNat?), others := ← others.toNat? }
+    let outs := udpRun pc ep ds
+    pure (s!"n={outs.length}" ++ String.join (outs.map fun o => " " ++ showUOut o))
+  | _ => none
+
+structure WsQ where
+  l : WsL
+  pc : PCfg
+  stream : Bytes
+
+def parseWss : List String → Option WsQ
+  | rm :: p :: raw :: ttl :: sp :: busy :: host :: sub :: chunks => do
+    let pc ← parsePc p raw ttl sp busy
+    let cs ← chunks.mapM parseHex
+    pure { l := { proto := ← parseHex sub, host := ← parseHex host, recvmax := ← rm.toNat? }, pc := pc, stream := cs.flatten }
+  | _ => none
+
+def b01 (b : Bool) : String := if b then "1" else "0"
+
+def modelWss (ws : List String) : Option String := do
+  let q ← parseWss ws
+  let o := wsSess q.l q.pc q.stream
+  let sts := if o.conn.statuses.isEmpty then "-" else ",".intercalate (o.conn.statuses.map toString)
+  let tx := if o.closeTx.isEmpty then "-" else ",".intercalate (o.closeTx.map toHex)
+  pure (s!"st={sts} up={b01 o.conn.upgraded} sclose={b01 o.conn.closedByServer} wsclosed={b01 o.wsClosed} tx={tx} tp={o.tp.length} " ++
+    s!"pclose={b01 o.pclose} n={o.deliver.length}" ++ String.join (o.deliver.map fun (h, b) => s!" D {toHex h} {toHex b}"))
+
 def modelStep (ws : List String) : String :=
   let r : Option String :=
     match ws with
@@ -90,6 +159,8 @@ def modelStep (ws : List String) : String :=
       pure (toHex (handshake (← peer.toNat?) ++ stream kind (ps.map fun p => ⟨[], p⟩)))
     | ["udp", known, rm, d] => do
       pure (showUdp (udpRxCb (← parseHex d) (known == "1") (udpSetRecvMax (← rm.toNat?))))
+    | "udps" :: rest => modelUdps rest
+    | "wss" :: rest => modelWss rest
     | _ => none
   r.getD "bad-op"
 
@@ -182,6 +253,68 @@ def judgeSess (s : Sess) (ds : List (Bytes × Obs)) : Option String :=
     let frames := (parse (specFraming s.cfg.kind s.cfg.rcvmax) (stream.drop 8)).1
     matchDeliveries s.pc frames ds
 
+/-- positions just behind a blank line (LF LF or LF CR LF): where a request head can end -/
+def headEnds : Nat → Bytes → List Nat
+  | _, [] => []
+  | i, c :: r =>
+    let here := if c == 0x0A && (r.take 1 == [0x0A] ) then [i + 2]
+                else if c == 0x0A && (r.take 2 == [0x0D, 0x0A]) then [i + 3] else []
+    here ++ headEnds (i + 1) r
+
+/-- specification-only judgement of what a ws:// connection delivered: every message within RECVMAXSZ, and the
+    deliveries are, in order, messages the RFC 6455 reference decoder (client frames, binary only, nng's limits)
+    yields from the bytes behind some request head of the stream, with a protocol header the socket may accept -/
+def judgeWss (q : WsQ) (ds : List (Bytes × Obs)) : Option String :=
+  if ds.isEmpty then none
+  else if q.pc.busy then some "delivery from a second connection on a PAIR socket"
+  else if q.l.recvmax ≠ 0 ∧ ds.any (fun hb => decide (hb.2.length > q.l.recvmax)) then
+    some "delivered a message larger than NNG_OPT_RECVMAXSZ"
+  else
+    let lim : WsSpec.Limits := { maxframe := Generated.c11bWsDefMaxRxFrame, recvmax := q.l.recvmax, recvText := false }
+    let ok := (headEnds 0 q.stream).any fun p =>
+      (matchDeliveries q.pc (WsSpec.feed true lim {} (q.stream.drop p)).2 ds).isNone
+    if ok then none
+    else some "delivered a message that no sequence of valid client frames behind a request head of the stream carries"
+
+/-- the transport payload the SP/UDP rules allow for datagram `d` of a sender with an association -/
+def specUdpPayload (lim : Nat) (d : Bytes) : Option Bytes :=
+  let p := (d.drop 8).take ((d.getD 4 0).toNat + 256 * (d.getD 5 0).toNat)
+  if udpAllowed d true lim p then some p else none
+
+def isCreq (d : Bytes) : Bool := decide (d.length ≥ 8) && d.getD 0 0 == 1 && d.getD 1 0 == 1
+
+/-- payloads a sender may get delivered: allowed DATA datagrams behind a connection request of that sender, up to
+    the first one whose protocol header is malformed (that ends the association; a new request starts another) -/
+def udpFrames (pc : PCfg) (lim src : Nat) : Bool → List (Nat × Bytes) → List Bytes
+  | _, [] => []
+  | live, (s, d) :: r =>
+    if s ≠ src then udpFrames pc lim src live r
+    else if isCreq d then udpFrames pc lim src true r
+    else
+      match live, specUdpPayload lim d with
+      | true, some p =>
+        match verdictOf pc p with
+        | .malformed => udpFrames pc lim src false r
+        | _ => p :: udpFrames pc lim src live r
+      | _, _ => udpFrames pc lim src live r
+
+def parseSrcDeliveries : List String → Option (List (Nat × Bytes × Obs))
+  | [] => some []
+  | "D" :: s :: h :: b :: rest => do
+    let r ← parseSrcDeliveries rest
+    pure ((← s.toNat?, ← parseHex h, ← parseObs b) :: r)
+  | _ => none
+
+/-- specification-only judgement of an SP/UDP session -/
+def judgeUdps (lim : Nat) (pc : PCfg) (dgs : List (Nat × Bytes)) (ds : List (Nat × Bytes × Obs)) : Option String :=
+  if ds.any (fun x => decide (x.2.2.length > lim)) then some "delivered a message larger than the SP/UDP receive limit"
+  else
+    let srcs := (ds.map (·.1)).eraseDups
+    srcs.findSome? fun s =>
+      match matchDeliveries pc (udpFrames pc lim s false dgs) ((ds.filter (·.1 == s)).map (·.2)) with
+      | none => none
+      | some _ => some "a payload was delivered that no datagram of that sender justifies (association by CREQ, version 1, DATA, declared length within the datagram and the limit, exactly the declared part, acceptable protocol header)"
+
 def judgeStep (ws : List String) : String :=
   let (q, o) := ws.span (· ≠ "=>")
   let obs := o.drop 1
@@ -191,6 +324,17 @@ def judgeStep (ws : List String) : String :=
       let s ← parseSess rest
       let ds ← parseDeliveries (obs.drop 1)
       pure (judgeSess s ds)
+    | "udps" :: rm :: p :: raw :: ttl :: sp :: busy :: _others :: dgs => do
+      let pc ← parsePc p raw ttl sp busy
+      let dg ← dgs.mapM parseDg
+      let rmv ← rm.toNat?
+      let lim := if rmv = 0 ∨ rmv > 65000 then 65000 else rmv
+      let ds ← parseSrcDeliveries (obs.drop 1)
+      pure (judgeUdps lim pc dg ds)
+    | "wss" :: rest => do
+      let qq ← parseWss rest
+      let ds ← parseDeliveries (obs.drop 1)
+      pure (judgeWss qq ds)
     | ["udp", known, rm, d] => do
       let d ← parseHex d
       let rmv ← rm.toNat?
